@@ -3,6 +3,7 @@ package sym
 import (
 	"fmt"
 	"os"
+	"regexp"
 	"runtime"
 	"sort"
 	"strings"
@@ -66,7 +67,7 @@ func (P *Program) newMachine(h *HarnessSpec, opts RunOpts, solverKind string) (*
 }
 
 func (P *Program) configFor(h *HarnessSpec, tier string) Config {
-	c := Config{MaxDecisions: 3000, MaxSteps: 5_000_000, MaxCallDepth: 400, MaxSlice: 64, MaxStr: 24,
+	c := Config{MaxDecisions: 3000, MaxSteps: 5_000_000, MaxCallDepth: 3000, MaxSlice: 64, MaxStr: 24,
 		MaxPreempt: 2, MapOrderAny: h.MapOrderAny, DeadlockOK: h.DeadlockOK, NoopPkgs: P.Suite.NoopPackages}
 	if v, ok := h.MaxPreempt[tier]; ok {
 		c.MaxPreempt = v
@@ -236,11 +237,11 @@ func (P *Program) Explore(h *HarnessSpec, opts RunOpts) *HarnessResult {
 				}
 			}
 			work = append(work, pr.NewWork...)
-			if maxPaths > 0 && res.Paths >= maxPaths && (len(work) > 0 || active > 0) {
+			if !stop && maxPaths > 0 && res.Paths >= maxPaths && (len(work) > 0 || active > 0) {
 				inconc[fmt.Sprintf("path budget %d exhausted with %d prefixes pending", maxPaths, len(work))] = true
 				stop = true
 			}
-			if !opts.Deadline.IsZero() && time.Now().After(opts.Deadline) && (len(work) > 0 || active > 0) {
+			if !stop && !opts.Deadline.IsZero() && time.Now().After(opts.Deadline) && (len(work) > 0 || active > 0) {
 				inconc[fmt.Sprintf("time budget exhausted with %d prefixes pending", len(work))] = true
 				stop = true
 			}
@@ -306,6 +307,12 @@ func (P *Program) Explore(h *HarnessSpec, opts RunOpts) *HarnessResult {
 	return res
 }
 
+var indexRE = regexp.MustCompile(`\[-?\d+\]`)
+
+// normIndex makes panic messages of the symbolic and the concrete run comparable: an index
+// that is symbolic on the explored path is a number in the replay.
+func normIndex(s string) string { return indexRE.ReplaceAllString(s, "[symbolic]") }
+
 // ConcreteReplay re-executes the harness with the model values fixed.
 func (P *Program) ConcreteReplay(h *HarnessSpec, opts RunOpts, v *Violation) {
 	m, err := P.newMachine(h, opts, "")
@@ -323,7 +330,7 @@ func (P *Program) ConcreteReplay(h *HarnessSpec, opts RunOpts, v *Violation) {
 		pre = append(pre, Dec{C: d})
 	}
 	pr := m.RunPath(pre)
-	if pr.Kind == "violation" && strings.HasPrefix(pr.Msg, v.Kind+":"+v.Label+":") {
+	if pr.Kind == "violation" && strings.HasPrefix(normIndex(pr.Msg), normIndex(v.Kind+":"+v.Label+":")) {
 		v.Confirmed["engine_concrete"] = "yes"
 	} else {
 		v.Confirmed["engine_concrete"] = "no: concrete run ended with " + pr.Kind + " " + pr.Msg
